@@ -169,17 +169,25 @@ def run(ctx):
     lw = prog.fn("lexWord")
     ifs = [n for n in lw.nodes if n.get("k") == "if"]
     esc = None
+    cond_chars = set()
     for n in ifs:
         ds = [x for x in disj(n.child("c"))]
-        chars = set()
+        chars, cond = set(), set()
         for d_ in ds:
             d_ = core(d_)
             if d_ is not None and d_.get("k") == "bin" and d_["op"] == "==" and core(d_.child("r")).get("k") == "char" and expr_str(core(d_.child("l"))) == "c":
                 chars.add(core(d_.child("r"))["v"])
-        if len(chars) >= 2 and len(chars) == len(ds):
+            elif d_ is not None:
+                # a character accepted only together with something else: (c == 'x' && ...)
+                for y in d_.walk():
+                    if y.get("k") == "bin" and y["op"] == "==" and core(y.child("r")).get("k") == "char" and expr_str(core(y.child("l"))) == "c":
+                        cond.add(core(y.child("r"))["v"])
+        if len(chars) + len(cond) >= 2 and esc is None:
             esc = (n, chars)
-    ok = esc is not None and esc[1] == {32, 35, 92}
-    r.check(ok, "lexWord|escape-set", "", "characters un-escaped after a backslash: %s" % (sorted(chr(c) for c in esc[1]) if esc else None), lw)
+            cond_chars = cond
+    ok = esc is not None and esc[1] == {32, 35, 92} and not cond_chars
+    r.check(ok, "lexWord|escape-set", "", "characters un-escaped after a backslash: %s%s" % (
+        sorted(chr(c) for c in esc[1]) if esc else None, (", and only under a further condition: %s" % sorted(chr(c) for c in cond_chars)) if cond_chars else ""), lw)
     if esc:
         n = esc[0]
         then_push = [c for c in lw.calls("push_back") if any(x is c for x in n.child("then").walk())]
@@ -187,6 +195,8 @@ def run(ctx):
         ok = len(then_push) == 1 and expr_str(core(arg_nodes(then_push[0])[0])) == "c" and len(else_push) == 2 and \
             core(arg_nodes(else_push[0])[0]).get("v") == 92 and expr_str(core(arg_nodes(else_push[1])[0])) == "c"
         r.check(ok, "lexWord|other-escapes-keep-backslash", "", "an unknown escape does not keep its backslash", lw)
+    else:
+        r.violation("lexWord|other-escapes-keep-backslash", "escape handling not found", lw)
     bfl = BranchFacts(lw, kill="assign")
     dollar = [c for c in lw.calls("push_back") if any(p and a == "(36 == c)" or p and a == "(c == 36)" for a, p in (bfl.at_node(c) or frozenset()))]
     ok = len(dollar) == 1
@@ -223,6 +233,8 @@ def short_name(f):
 
 
 VARIANTS = [
+    dict(name="backslash-unescaped-only-before-special", file="lib/Core/MakefileDepsParser.cpp", old="      if (c == ' ' || c == '#' || c == '\\\\') {",
+         new="      if (c == ' ' || c == '#' || (c == '\\\\' && cur + 1 != end && (cur[1] == ' ' || cur[1] == '#'))) {", expect=("R-ESCAPE-TABLE", "escape-set")),
     dict(name="shell-deps-key-from-raw-token", file="lib/BuildSystem/ShellCommand.cpp",
          old="        ti.discoveredDependency(BuildKey::makeNode(unescapedWord).toData());\n        system.getDelegate().commandFoundDiscoveredDependency(command, unescapedWord, DiscoveredDependencyKind::Input);\n        return;",
          new="        ti.discoveredDependency(BuildKey::makeNode(dependency).toData());\n        system.getDelegate().commandFoundDiscoveredDependency(command, unescapedWord, DiscoveredDependencyKind::Input);\n        return;",
